@@ -203,11 +203,6 @@ func (u *Upstream) waitToSendAllDataPointsAndReceiveAllAck(ctx context.Context) 
 		return errors.Errorf("failed to flush chunk: %w", err)
 	}
 
-	alreadyReceivedLastSentAck := atomic.LoadUint32(&u.maxSequenceNumberInReceivedUpstreamChunkResults) == u.sequence.CurrentValue()
-	if alreadyReceivedLastSentAck {
-		return nil
-	}
-
 	// wake the wait loop below when either context ends; nothing else signals then
 	wake := func() {
 		u.receivedAck.L.Lock()
